@@ -2198,6 +2198,23 @@ class SQLModel:
             if subsql_add_query_name
             else None,
         )
+        if is_union:
+            # a SELECT ending in ORDER BY / LIMIT can not be a member of a compound select: wrap it
+            def wrap_if_suffixed(sub_sql, substr):
+                sub_suffix = getattr(sub_sql.near_sql, "suffix", None)
+                if (sub_suffix is None) or not any(
+                    str(li).strip().upper().startswith(("ORDER BY", "LIMIT"))
+                    for li in sub_suffix
+                ):
+                    return substr
+                return (
+                    ["SELECT", sql_format_options.sql_indent + "*", "FROM", "("]
+                    + [sql_format_options.sql_indent + si for si in substr]
+                    + [") " + sub_sql.near_sql.quoted_query_name]
+                )
+
+            substr_1 = wrap_if_suffixed(near_sql.sub_sql1, substr_1)
+            substr_2 = wrap_if_suffixed(near_sql.sub_sql2, substr_2)
         sql = (
             [sql_start]
             + self._indent_and_sep_terms(
